@@ -665,6 +665,10 @@ func classifyErrValue(ev ssa.Value, b *ssa.BasicBlock, depth int) retClass {
 		return retError
 	case *ssa.Call:
 		// direct result of a call
+		if isWrapHelperCall(x) && len(x.Call.Args) > 0 {
+			// wrapError*IfNeeded(e, ...) is nil exactly when e is nil
+			return classifyErrValue(x.Call.Args[0], b, depth+1)
+		}
 		if isErrorConstructorCall(x) {
 			return retError
 		}
@@ -697,8 +701,18 @@ func classifyErrValue(ev ssa.Value, b *ssa.BasicBlock, depth int) retClass {
 // in the root package whose single result is error, with at least one path
 // that returns non-nil unconditionally. We approximate: static callee in the
 // root package whose name starts with "New" and ends in "Error"/"Errorf".
-// wrapError* helpers return nil for nil input, but they are only ever applied
-// to a non-nil error (checked by rule E-wrap-arg) so they count as well.
+// wrapError* helpers return nil for nil input: classifyErrValue looks through
+// them to their argument before this function is consulted.
+// isWrapHelperCall: wrapError*AsExternalErrorIfNeeded(err, ...) of the root package (returns nil for a nil argument).
+func isWrapHelperCall(c *ssa.Call) bool {
+	f := c.Call.StaticCallee()
+	if f == nil || f.Pkg == nil || f.Pkg.Pkg.Path() != rootPkgPath {
+		return false
+	}
+	n := f.Name()
+	return len(n) > 9 && n[:9] == "wrapError" && f.Signature.Params().Len() >= 1 && isErrorType(f.Signature.Params().At(0).Type())
+}
+
 func isErrorConstructorCall(c *ssa.Call) bool {
 	f := c.Call.StaticCallee()
 	if f != nil && (f.String() == "fmt.Errorf" || f.String() == "errors.New") {
